@@ -142,3 +142,81 @@ contract("src/long_read_counter.py:AssignedFeatureCounter.__init__",
          native_args=_afc_native,
          gen=lambda rng, n: ({"self": None, "read_groups": set(rng.sample(["b", "a", "NA", "g10", "g2", "zeta", "cell_1", "cell_12"], rng.randint(0, 6)))}
                              for _ in range(n)))
+
+
+# ---- --read_group file:...: the per-chromosome split of the user's table (pysam + files; bounded) --------------------------------
+def _split_case(seed):
+    import os, random, shutil, tempfile, types
+    import pysam
+    rng = random.Random(seed)
+    rg = native.repo_import("src/read_groups.py")
+    base = os.path.join(os.path.dirname(os.path.dirname(os.path.abspath(__file__))), ".run")
+    os.makedirs(base, exist_ok=True)
+    d = tempfile.mkdtemp(prefix="rgt", dir=base)
+    problems = []
+    try:
+        chroms = ["chrA", "chrB", "chrC"][:rng.randint(2, 3)]
+        header = {"HD": {"VN": "1.0", "SO": "coordinate"}, "SQ": [{"SN": c, "LN": 10000} for c in chroms]}
+        reads = ["r%d" % k for k in range(rng.randint(3, 8))]
+        table = {r: rng.choice(["G1", "G2", "G3"]) for r in reads if rng.random() < .75}
+        recs = []
+        for r in reads:
+            where = rng.sample(range(len(chroms)), rng.randint(1, len(chroms)))      # some reads align to several chromosomes
+            for j, ci in enumerate(where):
+                for _rep in range(rng.randint(1, 2)):
+                    recs.append((ci, rng.randint(10, 9000), r, j > 0))
+        recs.sort()
+        bam = os.path.join(d, "x.bam")
+        with pysam.AlignmentFile(bam, "wb", header=header) as out:
+            for ci, pos, r, suppl in recs:
+                a = pysam.AlignedSegment()
+                a.query_name, a.query_sequence, a.flag = r, "A" * 20, (2048 if suppl else 0)
+                a.reference_id, a.reference_start, a.mapping_quality, a.cigar = ci, pos, 60, [(0, 20)]
+                out.write(a)
+        pysam.index(bam)
+        tfile = os.path.join(d, "groups.tsv")
+        with open(tfile, "w") as f:
+            f.write("#read\tgroup\n")
+            for r, g in table.items():
+                f.write("%s\t%s\n" % (r, g))
+        sample = types.SimpleNamespace(file_list=[[bam]], read_group_file=os.path.join(d, "split"))
+        rg.split_read_group_table(tfile, sample, 0, 1, "\t")
+        for ci, c in enumerate(chroms):
+            path = sample.read_group_file + "_" + c
+            if not os.path.exists(path):
+                problems.append("no split table for %s" % c)
+                continue
+            grouper = rg.ReadTableGrouper(path, 0, 1, "\t")
+            for ci2, pos, r, suppl in recs:
+                if ci2 != ci:
+                    continue
+                got = grouper.get_group_id(types.SimpleNamespace(query_name=r))
+                want = table.get(r, "NA")
+                if got != want:
+                    problems.append("read %s on %s grouped as %s, the table says %s" % (r, c, got, want))
+    finally:
+        shutil.rmtree(d, ignore_errors=True)
+    return problems
+
+
+def replay_split(d):
+    p = _split_case(d["inputs"]["seed"])
+    return (not p), "seed %s: %s" % (d["inputs"]["seed"], p or "every alignment grouped as the table says")
+
+
+@bounded("C09.read_group_table_split", ["C09"], note="real split_read_group_table on a pysam-written BAM with 2-3 references where some reads "
+         "align to several chromosomes (supplementary records), then the real per-chromosome ReadTableGrouper: every alignment of a read "
+         "listed in the user's table must be grouped under the table's entry on every chromosome, unlisted reads under NA")
+def c09_split(tier, rng):
+    n = 40 if tier == "quick" else 1500
+    base = rng.randrange(10 ** 9)
+    for k in range(n):
+        try:
+            p = _split_case(base + k)
+        except Exception as e:
+            p = ["exception %s: %s" % (type(e).__name__, e)]
+        if p:
+            return {"cases": k + 1, "bound": "%d BAMs" % n, "violations": [{
+                "obligation": "C09.read_group_table_split", "inputs": {"seed": base + k}, "observed": p[:3],
+                "required": "table entry on every chromosome", "replay_call": "contracts.c_groups:replay_split"}]}
+    return {"cases": n, "bound": "%d random BAM/table pairs" % n, "violations": [], "samples": [{"seed": base}]}
